@@ -1,21 +1,16 @@
 #!/bin/bash
-# usage: tools/recheck_seed.sh <seed id> <props...>
-# re-runs the checks of the given properties against a stored seeded change (applied to /repo, reverted afterwards)
-# and refreshes seeded/<id>/check_results.txt and the caught/violations fields of meta.json.
-set -u
+# usage: recheck_scratch.sh <seed id> <props...>  (like tools/recheck_seed.sh but on a scratch copy)
 ID="$1"; shift
 OUT=/verif/seeded/$ID
-export GOFLAGS=-mod=mod GOPROXY=off GOSUMDB=off GOTOOLCHAIN=local
-git -C /repo diff --quiet || { echo "/repo dirty"; exit 2; }
 RES="$OUT/check_results.txt"; : > "$RES"
-git -C /repo apply "$OUT/patch.diff" || exit 2
+SC=$(mktemp -d /var/tmp/confirm-seed.XXXXXX)
+rsync -a --exclude .git /repo/ "$SC"/
+(cd "$SC" && patch -p1 -s --no-backup-if-mismatch < "$OUT/patch.diff" >/dev/null 2>&1) || echo "patch failed" >> "$RES"
 for P in "$@"; do
-  (cd /verif && ./bin/govc check -prop "$P" -no-evidence 2>&1 | grep -E "FAIL|VIOLATION|BROKEN|^govc" | cut -c1-240 | sed "s/^/[$P] /") >> "$RES"
-  if [ "$P" = "C16" ]; then
-    (cd /verif && CORPUS_NO_EVIDENCE=1 tools/corpus_check.sh "$P" 2>&1 | grep -E "FAIL|VIOLATION|BROKEN|^corpus:" | cut -c1-240 | sed "s/^/[$P] /") >> "$RES"
-  fi
+  (cd /verif && ./bin/govc check -prop "$P" -repo "$SC" -no-evidence 2>&1 | grep -E "FAIL|VIOLATION|BROKEN|^govc" | cut -c1-240 | sed "s#$SC#/repo#g" | sed "s/^/[$P] /") >> "$RES"
+  if [ "$P" = "C16" ]; then (cd /verif && VERIF_REPO="$SC" CORPUS_NO_EVIDENCE=1 tools/corpus_check.sh "$P" 2>&1 | grep -E "FAIL|VIOLATION|BROKEN|^corpus:" | cut -c1-240 | sed "s/^/[$P] /") >> "$RES"; fi
 done
-git -C /repo checkout -- .
+rm -rf "$SC"
 python3 - "$OUT" "$*" <<'PY'
 import json, sys
 out, props = sys.argv[1:3]
